@@ -67,14 +67,19 @@ def name_hole(ir):
     return None, None
 
 
+_TWO = [False]           # is the law being read the two-reactant surface law?  (set per method in _r2_r5)
+
+
 def species_role(s):
-    """reac.reactants[0] -> 's', re1/re2 of `re1, re2 = reac.reactants` -> 's1'/'s2', non-grain reactant -> 's', products -> 'PRODUCT'."""
-    if s == ("sub", ("attr", REAC, "reactants"), ("const", 0)):
-        return "s"
+    """the reactant at position 0 -> 's' (one-reactant laws) / 's1' (surface law), position 1 -> 's2', however it is picked
+    (reac.reactants[i], `a, b = reac.reactants`, `(a,) = reac.reactants`); the non-grain reactant -> 'ng'; products -> 'PRODUCT'."""
+    pos = None
     if s[0] == "item" and s[1] == ("attr", REAC, "reactants") and s[2] in (0, 1):
-        return f"s{s[2] + 1}"
-    if s[0] == "sub" and s[1] == ("attr", REAC, "reactants") and s[2][0] == "const" and s[2][1] in (0, 1):
-        return f"s{s[2][1] + 1}"
+        pos = s[2]
+    elif s[0] == "sub" and s[1] == ("attr", REAC, "reactants") and s[2][0] == "const" and s[2][1] in (0, 1):
+        pos = s[2][1]
+    if pos is not None:
+        return f"s{pos + 1}" if _TWO[0] or pos else "s"
     if s[0] == "item" and s[1][0] == "comp" and s[2] == 0:
         # [spec] = [s for s in reac.reactants if not s.is_grain]
         c = s[1]
@@ -530,6 +535,7 @@ def _r2_r5(ctx, rm, pkg):
         if not vs:
             ctx.bad("R5", f"{cls}.{mname}", (ci.file, ci.methods[mname].lineno), "no rate template extracted from this method")
             continue
+        _TWO[0] = mname == _SURF[0]
         for vi, v in enumerate(vs):
             n += 1
             txt = v.text
@@ -552,6 +558,10 @@ def _r2_r5(ctx, rm, pkg):
             # reactants (GRAIN- + X+) has no fixed reactant order (the naunet writer sorts by name): position is not the ion.
             allowed = {"s1", "s2"} if mname == _SURF[0] else {"ng"} if mname in GRAIN_REACTANT else {"s", "ng"}
             wrong = [r for r in roles if r not in allowed and r != "PRODUCT"]
+            if unknown and not bad_roles and not wrong:
+                # a hole that is not understood is not evidence of a wrong species
+                ctx.unrec("R2", f"{vkey}:species", (v.file, v.line), f"the template pastes values whose origin is not understood: {unknown}")
+                continue
             ctx.check(not bad_roles and not wrong and not unknown, "R2", f"{vkey}:species", (v.file, v.line),
                       f"species data come from {sorted(roles) or 'no species'} = the reacting species" if not (bad_roles or wrong or unknown) else
                       ("a product's data are used in the rate" if bad_roles else
@@ -615,6 +625,7 @@ def _r2_r5(ctx, rm, pkg):
     ctx.floor("R5", "grain rate templates", n, 20)
     ctx.floor("R5", "signature requirements", nsig, 60)
     # RR07 accretion arms: electron arm has no mass dependence, the other arms have T^(1/2) A^(-1/2)
+    _TWO[0] = False
     vs = [v for v in rm.variants("RR07Grain", "rate_depletion") if v.kind == "text"]
     from ..valueflow import guards_satisfiable
     ELEC = ("attr", ("sub", ("attr", REAC, "reactants"), ("const", 0)), "is_electron")
@@ -786,6 +797,9 @@ BENIGN = [
     {"name": "create-species-if-else", "file": "naunet/component.py", "old": '        if isinstance(species_name, Species):\n            return species_name\n\n        if species_name and species_name not in Species.known_pseudoelements():\n            return Species(species_name, **kwargs)\n\n        return None\n', "new": "        if not isinstance(species_name, Species):\n            if species_name and species_name not in Species.known_pseudoelements():\n                return Species(species_name, **kwargs)\n            return None\n        return species_name\n"},
     {"name": "eb-const-name-through-set", "file": CONST_C, "old": "double eb_{{ s.alias }}", "new": "{% set ice = s.alias -%}\ndouble eb_{{ ice }}", "count": 1},
     {"name": "binding-table-tokens-by-index", "file": "naunet/chemistrydata/__init__.py", "old": "                elem, eb, *other = line.split()\n                binding_energy.update({elem: float(eb)})", "new": "                parts = line.split(None, 2)\n                binding_energy[parts[0]] = float(parts[1])"},
+    {"name": "single-reactant-by-unpacking", "file": HH, "old": "        spec = reac.reactants[0]\n        rate = \" * \".join(\n            [\n                f\"{opt_thd} * {cov}\",", "new": "        (spec,) = reac.reactants\n        rate = \" * \".join(\n            [\n                f\"{opt_thd} * {cov}\","},
+    {"name": "surface-reactants-by-index", "file": HH, "old": "        re1, re2 = reac.reactants\n", "new": "        re1 = reac.reactants[0]\n        re2 = reac.reactants[1]\n"},
+    {"name": "tunnelling-test-as-equalities", "file": HH, "old": '        elif re1.name in ["GH", "GH2"]:', "new": '        elif re1.name == "GH" or re1.name == "GH2":'},
 ]
 
 
@@ -847,6 +861,10 @@ def _r12_tunnelling(ctx, pkg):
                     atoms.append(x)
         for a in atoms:
             src = _ast.unparse(a)
+            if isinstance(a, _ast.Compare) and len(a.ops) == 1 and isinstance(a.ops[0], (_ast.Eq, _ast.NotEq)) and isinstance(a.left, _ast.Attribute) \
+                    and isinstance(a.comparators[0], _ast.Constant) and isinstance(a.comparators[0].value, str):
+                # `x.name == "GH"` is `x.name in ["GH"]`
+                a = _ast.copy_location(_ast.Compare(left=a.left, ops=[_ast.In()], comparators=[_ast.copy_location(_ast.List(elts=[a.comparators[0]], ctx=_ast.Load()), a)]), a)
             if isinstance(a, _ast.Compare) and len(a.ops) == 1 and isinstance(a.ops[0], (_ast.In, _ast.NotIn)) and isinstance(a.left, _ast.Attribute) and a.left.attr in ("name", "basename", "gasname", "alias"):
                 lst = a.comparators[0]
                 if isinstance(lst, _ast.Name):
